@@ -170,6 +170,8 @@ adapt_choose(struct scn *s, struct isal_zstream *z, size_t fed, int eos_set, int
                                                 continue;
                                         if (eos && !eos_set && !give && left > 0)
                                                 continue; /* end_of_stream is announced with or after the last chunk */
+                                        if (eos && !eos_set && give && left > (size_t) s->inlen / 16 + 1 && i < s->cap / 3)
+                                                continue; /* keep the stream going: the last chunk is a small one */
                                         inp = z->avail_in > 0 || give || buffered;
                                         n = acov[st][room][inp][fl][eos] * 4 + (int) (arnd() & 3);
                                         if (n < best) {
@@ -189,6 +191,8 @@ adapt_choose(struct scn *s, struct isal_zstream *z, size_t fed, int eos_set, int
         acov[st][room][z->avail_in > 0 || give || buffered][fl][eos]++;
         c.ao = room == 0 ? 0 : room == 1 ? 1 + (int) (arnd() % 7) : big[arnd() % 9];
         c.ai = !give ? 0 : (eos && !eos_set) ? (int) left : chunks[arnd() % 9];
+        if (give && !(eos && !eos_set) && (size_t) c.ai > (size_t) s->inlen / 16 + 1)
+                c.ai = s->inlen / 16 + 1;
         if (give && (size_t) c.ai > left)
                 c.ai = (int) left;
         c.flush = fl;
@@ -446,6 +450,44 @@ run_deflate(struct scn *s)
         vh_region_put(&outr);
 }
 
+/* adaptive schedule for the decompressor: least-visited (room class, input hand-over class) from the current (block_state, output staged) */
+static unsigned short icov[32][2][3][4];
+static struct call
+adapt_choose_inflate(struct scn *s, struct inflate_state *st, size_t fed, int i)
+{
+        static const int big[] = { 4, 16, 100, 258, 300, 5000, 70000 };
+        struct call c;
+        int bs = st->block_state & 31, pnd = st->tmp_out_valid != st->tmp_out_processed, room, give, best = 1 << 30, pr = 2, pg = 3;
+        size_t left = s->inlen - fed;
+        c.flush = 0;
+        c.eos = 0;
+        if (i > s->cap / 2) {
+                c.ai = (int) left;
+                c.ao = 1 << 16;
+                return c;
+        }
+        for (room = 0; room < 3; room++)
+                for (give = 0; give < 4; give++) {
+                        int n;
+                        if (give && (left == 0 || st->avail_in > 0))
+                                continue;
+                        if (give == 3 && left > 40 && i < s->cap / 3)
+                                continue; /* keep the stream going: the rest of the input only when little is left */
+                        n = icov[bs][pnd][room][give] * 4 + (int) (arnd() & 3);
+                        if (n < best) {
+                                best = n;
+                                pr = room;
+                                pg = give;
+                        }
+                }
+        icov[bs][pnd][pr][pg]++;
+        c.ao = pr == 0 ? 0 : pr == 1 ? 1 + (int) (arnd() % 3) : big[arnd() % 7];
+        c.ai = pg == 0 ? 0 : pg == 1 ? 1 : pg == 2 ? 2 + (int) (arnd() % 39) : (int) left;
+        if ((size_t) c.ai > left)
+                c.ai = (int) left;
+        return c;
+}
+
 static void
 run_inflate(struct scn *s)
 {
@@ -479,6 +521,8 @@ run_inflate(struct scn *s)
                         maxao = s->calls[i].ao;
         if ((size_t) s->tail_ao > maxao)
                 maxao = s->tail_ao;
+        if (s->adapt && maxao < 70000)
+                maxao = 70000;
         sr = vh_region_get(sizeof(*st) + 64);
         st = (struct inflate_state *) vh_place(&sr, sizeof(*st), VH_START, 0);
         prefill(st, sizeof(*st), s->prefill & 15);
@@ -498,7 +542,9 @@ run_inflate(struct scn *s)
                 uint32_t ai0, to0;
                 int bs0, wf0, pnd0, buf0;
                 unsigned char *o;
-                if (i < s->ncalls)
+                if (s->adapt && s->api == API_INFLATE)
+                        c = adapt_choose_inflate(s, st, fed, i);
+                else if (i < s->ncalls)
                         c = s->calls[i];
                 else {
                         c.ai = s->tail_ai;
